@@ -18,7 +18,8 @@ CHUNK = 1000
 RULE = ("same seeded generator scenarios as C01 but with the motif-shape axis stressed (bare edge, one edge "
         "in a tuple/list, exactly two edges, k edges; homogeneous or per-edge names; topologies sharing a "
         "name), all three algorithm types, shuffle schedules and fault plans (callback failure / abort then "
-        "reuse); non-trivial = at least one edge was emitted; distinct = distinct execution digests")
+        "reuse, also with a row-permuted sequence on the second generation); 10% of the fast / network scenarios pass the library's "
+        "own builder OBJECTS and are judged structurally; non-trivial = at least one edge was emitted; distinct = distinct execution digests")
 ASSUMPTIONS = ["for the network generator the columns are edge annotations; they are compared on vertex pairs the "
                "callback log shows were emitted exactly once (repeated pairs collapse in an nx.Graph: C04's statement)",
                "handshake-consistent inputs by construction"]
@@ -145,14 +146,19 @@ def evaluate(sc, ctx, st, val, rec, reuse):
 
 
 def execute(sc, ctx):
+    sc0 = sc
     state = {"edges": 0}
 
-    def on_result(rnd, st, val, rec, faulted, jds=None, before=None, types_before=None):
+    def on_result(rnd, st, val, rec, faulted, jds=None, before=None, types_before=None, scr=None):
+        sc = scr or sc0
         if st == "construct_raised":
             ctx.violate("C02.raised", f"constructing the generator raised {describe_exc(val)}")
             return
         if faulted:
             ctx.probe("generation_after_fault")
+        if sc.get("raw_builders"):
+            state["edges"] += gensim.evaluate_raw(sc, ctx, st, val, "C02", faulted, jds, before, types_before)
+            return
         state["edges"] += evaluate(sc, ctx, st, val, rec, faulted)
 
     gensim.run_generation(sc, ctx, on_result)
